@@ -1,5 +1,5 @@
 """Texts of the claims made in MANIFEST.json, per property."""
-HOOK_COMMITS = ['78ce041', '65be38d', '036e882']
+HOOK_COMMITS = ['78ce041', '65be38d', '036e882', '4be9113']
 
 NOT_APPLICABLE = {}
 
@@ -116,5 +116,21 @@ CLAIMS = {
                 'slots obtainable after quiescence.',
         'note': TB + 'which exits release is dynamic evidence (scripted outcomes), not a static exit table; stop-at-any-point and post-accept dial/read failures are thorough-tier only.',
         'technique': 'Lean 4 invariant proof over interleavings + differential correspondence + scripted-fault enumeration on real instances',
+    },
+    'C12': {
+        'text': 'Lean 4 theorems over every store, update and clock: VerifyGenericUpdate accepts only if >=1 member signed, now >= signature slot > '
+                'attested slot >= finalized slot, the signature period is the store period (or the next one when a next committee is held), the update is '
+                'relevant, both Merkle branches verify (and then pin the leaf at gindex 105 / 55 in every opening of the attested state root, up to an '
+                'explicit SHA-256 collision) and the signature is valid for the committee the store holds for that period; ApplyGenericUpdate never moves '
+                'either header backwards, keeps optimistic >= finalized, changes finalized header/committees only with >= 2/3 participation, rotates only to the '
+                'stored next committee and installs a next committee of the right period — per step and for ALL update sequences from a bootstrapped store. '
+                'The model is tied to the Go code on every run: real BLS signatures over 512-key committees, one corruption at a time, verdict and resulting '
+                'store compared on ~2.6k updates incl. sequences across period boundaries; the driver recomputes header roots, Merkle folds, domain and signing root '
+                'with its own SHA-256. The bootstrap clause is false of the code today (checkpoint compared with the LightClientHeader container root instead of the '
+                'beacon block root): decided witness + monitor clause bootstrap_binds_checkpoint_root.',
+        'note': TB + 'BLS and the SSZ hashing of committees/execution headers are trusted; the fork schedule (zrnt Spec.ForkVersion, shifted by one fork in the pinned zrnt fork, '
+                'and taken at the signature slot rather than slot-1) is outside the statement: VerifyGenericUpdate takes the fork version as an argument. Electra-sized branches '
+                '(depth 6/7) are not handled by the code (bootstrap reads 5 of 6 nodes; Electra updates are "unknown update type"): liveness only, noted.',
+        'technique': 'Lean 4 decision-logic + invariant proofs (induction over update sequences, Merkle soundness without injectivity axiom) + differential correspondence with real BLS',
     },
 }
